@@ -209,6 +209,8 @@ def gen_main(rnd, tier):
         labels = ioops.PLAIN_LABELS + (ioops.KEYWORD_LABELS * 2 if kw else [])
         names = ioops.NAMES + (ioops.KEYWORD_NAMES if kw else [])
         g = C01.despace(ioops.gen_tg(rnd, rnd.choice(["full", "simple"]), labels=labels, names=names), rnd)
+        if rnd.random() < 0.2:
+            g = ioops.negate_tg(g, rnd)         # negative times: all below 0, or on both sides of it
         c = {"op": "write", "tg": g, "blanks": rnd.random() < 0.7, "stream": "keyword" if kw else "plain"}
         if not c["blanks"] and rnd.random() < 0.35:
             # a tier whose own span is narrower than the textgrid's (written verbatim when blank filling is off): the file
@@ -219,7 +221,7 @@ def gen_main(rnd, tier):
         if rnd.random() < 0.3:
             c["max"] = rnd.choice([g["hi"], g["hi"] + 1.0, g["hi"] + 0.123])
         if rnd.random() < 0.1:
-            c["min"] = 0.0
+            c["min"] = g["lo"] + 0.0
         yield c
 
 
